@@ -140,6 +140,16 @@ func (c *Ctx) Sample(key string, max int, v interface{}) {
 // watchdog or crash handler can save it.
 func (c *Ctx) SetInflight(b []byte) { c.inflight.Store(b) }
 
+// OutDir is where evidence/, replay/ and work/ are written: VERIF_OUT, or the
+// verification tree itself. (Mutant validation points it at a scratch directory so
+// that the committed evidence is not overwritten by runs against mutated trees.)
+func OutDir() string {
+	if d := os.Getenv("VERIF_OUT"); d != "" {
+		return d
+	}
+	return VerifDir()
+}
+
 // ReplayRecord is the content of a replay file.
 type ReplayRecord struct {
 	Property string `json:"property"`
@@ -153,7 +163,7 @@ type ReplayRecord struct {
 }
 
 func (c *Ctx) writeReplay(msg string, input []byte) string {
-	dir := filepath.Join(VerifDir(), "replay")
+	dir := filepath.Join(OutDir(), "replay")
 	os.MkdirAll(dir, 0o755)
 	name := fmt.Sprintf("%s-%s-%d-s%d.json", c.Check.ID, sanitize(c.curFamily), c.curIdx, Seed())
 	path := filepath.Join(dir, name)
@@ -322,7 +332,7 @@ func Checks() []string {
 	return ids
 }
 
-func workDir(id string) string { return filepath.Join(VerifDir(), "work", id) }
+func workDir(id string) string { return filepath.Join(OutDir(), "work", id) }
 
 // RunWorker executes the shard's share of every family and writes the result.
 func RunWorker(id, tier string, shard, nshard int, out string) int {
@@ -499,7 +509,7 @@ func RunCheck(id, tier string) int {
 	os.RemoveAll(wd)
 	os.MkdirAll(wd, 0o755)
 	defer os.RemoveAll(wd)
-	os.MkdirAll(filepath.Join(VerifDir(), "evidence"), 0o755)
+	os.MkdirAll(filepath.Join(OutDir(), "evidence"), 0o755)
 
 	total := newResult()
 	pc := &Ctx{Check: ch, Tier: tier, NShard: 1, Res: total, curFamily: "parent"}
@@ -554,7 +564,7 @@ func RunCheck(id, tier string) int {
 					verdict := pc.isolate(self, sb)
 					switch verdict {
 					case "hang":
-						p := filepath.Join(VerifDir(), "replay", fmt.Sprintf("%s-hang-shard%d-s%d.json", id, r.shard, Seed()))
+						p := filepath.Join(OutDir(), "replay", fmt.Sprintf("%s-hang-shard%d-s%d.json", id, r.shard, Seed()))
 						os.MkdirAll(filepath.Dir(p), 0o755)
 						os.WriteFile(p, sb, 0o644)
 						total.NViolations++
@@ -587,7 +597,7 @@ func RunCheck(id, tier string) int {
 		}
 	}
 	for _, cr := range crashed {
-		p := filepath.Join(VerifDir(), "replay", fmt.Sprintf("%s-crash-s%d.txt", id, Seed()))
+		p := filepath.Join(OutDir(), "replay", fmt.Sprintf("%s-crash-s%d.txt", id, Seed()))
 		os.MkdirAll(filepath.Dir(p), 0o755)
 		os.WriteFile(p, []byte(cr), 0o644)
 		total.NViolations++
@@ -662,7 +672,7 @@ func RunCheck(id, tier string) int {
 		"violations":  total.NViolations,
 	}
 	eb, _ := json.MarshalIndent(ev, "", " ")
-	evPath := filepath.Join(VerifDir(), "evidence", id+".json")
+	evPath := filepath.Join(OutDir(), "evidence", id+".json")
 	if err := os.WriteFile(evPath, eb, 0o644); err != nil {
 		fmt.Fprintln(os.Stderr, "writing evidence:", err)
 		return 2
